@@ -156,9 +156,18 @@ func LoadNormalised(opts LoadOpts, dry func(*Prog)) (*Prog, error) {
 	canonTry := 0 // 0: both rewrites, 1: library forms only, 2: methods only
 	canonAgain := false
 	// round 0 and the last round rewrite library forms (canon.go); the rounds between expand helpers
-	for round := -1; round <= maxRounds+2; round++ {
+	for round := -2; round <= maxRounds+2; round++ {
 		var res roundPlan
-		if round == -1 {
+		if round == -2 {
+			// first pre-round: loops over a literal table of cases become one copy of the body per case (unroll.go)
+			if os.Getenv("MLB_NO_CANON") != "" || os.Getenv("MLB_NO_UNROLL") != "" {
+				continue
+			}
+			res = planTableUnroll(p)
+			if len(res.files) == 0 {
+				continue
+			}
+		} else if round == -1 {
 			// pre-round: loops over this module's function iterators become the iterators' own loops (rangefunc.go)
 			if os.Getenv("MLB_NO_CANON") != "" {
 				continue
@@ -237,7 +246,7 @@ func LoadNormalised(opts LoadOpts, dry func(*Prog)) (*Prog, error) {
 			}
 			if err != nil {
 				info.Fallback = fmt.Sprintf("round %d: expanded sources do not type-check (%v); analysing the previous form", round, firstLine(err.Error()))
-				if round == -1 {
+				if round < 0 {
 					continue
 				}
 				if round == 0 {
